@@ -3,7 +3,7 @@
 //   S m n <dense row-major>  <rhs n values>   -> lines: T (transpose dense), R (replicate dense), G (adjacency 0/1 n x n),
 //        C connected, P perm.., I invp.., D defect, Z zero-pivot positions (permuted numbering), X solution (permuted numbering)
 //        V inverse entries on the profile as triples i j v (permuted numbering, regular case only)
-//   B nblocks {dim band values}               -> F factor values per block or "notpd k"
+//   B nblocks {dim band values}               -> EV dim <lower triangle of Envelope(BlockDiagonal)>, F factor values per block or "notpd k"
 //   U m n {k {col value}*k}*m                 -> raw storage, any order of the column indices, repeated indices allowed:
 //        RT / RTT = storage of transpose() / transpose()->transpose(): rows, then per row: count {index value}*count
 #include "hcommon.h"
@@ -93,6 +93,12 @@ int main() {
         for (int b = 0; b < nb; b++) { int d = std::stoi(w[p++]), bw = std::stoi(w[p++]); int N = d * (bw + 1) - bw * (bw + 1) / 2; std::vector<double> v(N); for (auto& x : v) x = hexd(w[p++]); dims.push_back(d); bands.push_back(bw); vals.push_back(v); fl += N; }
         BlockDiagonal<> bd(nb + 1, fl + 1);
         for (int b = 0; b < nb; b++) bd.add_block(dims[b], bands[b], vals[b].data());
+        {  // the block-diagonal matrix as an envelope: lower triangle row by row (0 outside the profile)
+          Envelope<double, int> ev(bd);
+          std::cout << "EV " << ev.dim();
+          for (int i = 1; i <= (int)ev.dim(); i++) for (int j = 1; j <= i; j++) { const double* q = ev.element(i, j); std::cout << ' ' << dhex(q ? *q : 0.0); }
+          std::cout << "\n";
+        }
         int k = bd.cholDec();
         if (k) std::cout << "notpd " << k << "\n";
         else { std::cout << "F"; for (int b = 1; b <= nb; b++) for (const double* q = bd.begin(b); q != bd.end(b); ++q) std::cout << ' ' << dhex(*q); std::cout << "\n"; }
